@@ -429,9 +429,21 @@ class Engine:
         r = Val.rv(v)
         return self.from_ref(st, r, hint)
 
+    def alloc_bound(self, st, r):
+        """the allocation frontier that bounds reference r: the entry frontier when r was read from a heap cell that
+        has not been written since entry (so the referenced object already existed then), the current one otherwise"""
+        t = r
+        if z3.is_app(t) and t.decl().name() == "rv" and t.num_args() == 1:
+            t = t.arg(0)
+        if z3.is_app(t) and t.decl().kind() == z3.Z3_OP_SELECT:
+            base = t.arg(0)
+            if z3.is_const(base) and base.decl().name().startswith("H0!") and "$alloc" in st.heap0:
+                return st.heap0["$alloc"]
+        return self.harr(st, "$alloc")
+
     def from_ref(self, st, r, hint):
         st.assume(r >= 1)
-        st.assume(r <= self.harr(st, "$alloc"))
+        st.assume(r <= self.alloc_bound(st, r))
         if hint == "list" or hint.startswith("list["):
             st.assume(clsof(r) == self.ct.id("list"))
             return SV("list", r, h=(hint[5:-1] if hint.startswith("list[") else None))
@@ -645,11 +657,15 @@ class Engine:
             return ai == bi
         return box(a) == box(b)
 
+    def ite_map(self, c, a, b):
+        """pointwise If over arrays (combinatory array logic: decidable, no lambdas)"""
+        x, y = z3.Consts("ite!x ite!y", Val)
+        decl = z3.If(z3.Bool("ite!b"), x, y).decl()
+        return z3.Map(decl, c, a, b)
+
     def dict_eq(self, d1, m1, d2, m2):
-        k = z3.Const("k!eq", Val)
-        n1 = z3.Lambda([k], z3.If(z3.Select(d1, k), z3.Select(m1, k), NoneV))
-        n2 = z3.Lambda([k], z3.If(z3.Select(d2, k), z3.Select(m2, k), NoneV))
-        return z3.And(d1 == d2, n1 == n2)
+        none = z3.K(Val, NoneV)
+        return z3.And(d1 == d2, self.ite_map(d1, m1, none) == self.ite_map(d2, m2, none))
 
     def as_sdict(self, st, v):
         if v.k == "sdict":
